@@ -20,6 +20,7 @@ CONSTANTS
     Xs,       \* click abscissae (same units as F)
     Ys,       \* click ordinates, in quarter orders: order value o sits at 4*o
     Keys,     \* keys that may be pressed / released ("shift" is the modifier)
+    InitShift,\* BOOLEAN: is the modifier already held when the behaviour starts (lets short behaviours hold three picks)
     MaxLen
 
 VARIABLES sel, shift, len, act
@@ -94,7 +95,7 @@ Click(b, x, y) ==
     /\ act' = [name |-> "Click", b |-> b, x |-> x, y |-> y]
 
 Init ==
-    /\ sel = <<>> /\ shift = FALSE /\ len = 0
+    /\ sel = <<>> /\ shift = InitShift /\ len = 0
     /\ act = [name |-> "Init"]
 
 Next ==
